@@ -13,6 +13,18 @@ func (runInfo *runInfoStruct) invokeLetExpr() {
 
 	// IdentExpr
 	case *ast.IdentExpr:
+		if runInfo.rv.CanAddr() {
+			switch runInfo.rv.Kind() {
+			case reflect.Bool, reflect.String, reflect.Float32, reflect.Float64,
+				reflect.Int, reflect.Int8, reflect.Int16, reflect.Int32, reflect.Int64,
+				reflect.Uint, reflect.Uint8, reflect.Uint16, reflect.Uint32, reflect.Uint64, reflect.Uintptr:
+				// a number, string or boolean read from a slice element, struct field or
+				// other variable is a value of its own, not a view of where it was read
+				value := reflect.New(runInfo.rv.Type()).Elem()
+				value.Set(runInfo.rv)
+				runInfo.rv = value
+			}
+		}
 		if runInfo.env.SetValue(expr.Lit, runInfo.rv) != nil {
 			runInfo.err = nil
 			runInfo.env.DefineValue(expr.Lit, runInfo.rv)
